@@ -11,7 +11,7 @@ RULE = ("spend histories over the event alphabet {create addr / address-less / z
         "tx, spend unknown outpoint, duplicate txid, double reference of one outpoint, spender placed before the creator inside a block}: "
         "ALL sequences of <=4 (quick) / <=5 (thorough) events (the many-output tx has 260 outputs for <=3 events, 3 beyond), each in every split over <=3 blocks (independent lanes packed into one chain "
         "per split), x ranges (full, --start inside, --end inside) x 3 coins; plus random long histories of 50..5000 events with shared "
-        "state. Real unspentcsvdump runs; the row multiset (header first, no duplicates) and the completion totals must equal the model "
+        "state; plus a transaction with 65,540 outputs (indices beyond 16 bits). Real unspentcsvdump runs; the row multiset (header first, no duplicates) and the completion totals must equal the model "
         "UTXO set. distinct = event sequences x splits x range kinds (counted), random histories by (coin, size class)")
 
 COINS3 = ["bitcoin", "litecoin", "dogecoin"]
@@ -93,8 +93,32 @@ def random_case(spec):
             "sample": {"kind": "random", "coin": coin, "events": spec["events"], "blocks": spec["blocks"], "utxo_rows": len(utxo)}}
 
 
+def wide_case(spec):
+    """output indices beyond 65535: one transaction with 65,540 address-bearing outputs, some of them spent later"""
+    from ..chain import Tx, TxIn, TxOut
+    from .. import gen
+    coin = spec["coin"]
+    rng = random.Random("C07wide|%s|%s" % (spec["seed"], spec["n"]))
+    cb = gen.ChainBuilder(rng, coin)
+    cb.add_block(n_tx=1)
+    wide = Tx(1, [TxIn(gen.rbytes(rng, 32), 0, b"", 0xFFFFFFFF)], [TxOut(1 + i, histories.p2pkh_for(b"wide%d" % i)) for i in range(65540)], 0)
+    cb.add_block(txs=[wide])
+    spends = [0, 3, 255, 256, 65535, 65536, 65539]
+    cb.add_block(txs=[Tx(1, [TxIn(wide.txid, i, b"", 0xFFFFFFFF)], [TxOut(7, histories.p2pkh_for(b"spent%d" % i))], 0) for i in spends[:4]])
+    cb.add_block(txs=[Tx(1, [TxIn(wide.txid, i, b"", 0xFFFFFFFF) for i in spends[4:]], [TxOut(9, histories.p2pkh_for(b"fanin"))], 0)])
+    chain = cb.chain()
+    work = harness.fresh(os.path.join(spec["work"], "c%d" % spec["n"]))
+    d = os.path.join(work, "d")
+    datadir.write_datadir(d, COINS[coin], harness.simple_layout(chain))
+    binary = core.build(spec.get("profile", "release"))
+    v, runs = run_ranges(binary, d, coin, chain, work, [(None, None, "full"), (None, 2, "end-inside")], "65,540-output transaction")
+    shutil.rmtree(work, ignore_errors=True)
+    return {"evaluations": runs, "violations": v, "counters": {"runs": runs, "wide_tx_cases": 1}, "shapes": ["wide|%s" % coin],
+            "sample": {"kind": "wide", "coin": coin, "outputs": 65540, "spent_indices": spends}}
+
+
 def dispatch(spec):
-    return lanes_case(spec) if spec["case"] == "lanes" else random_case(spec)
+    return {"lanes": lanes_case, "random": random_case, "wide": wide_case}[spec["case"]](spec)
 
 
 def plan(chk, pid="C07"):
@@ -113,6 +137,9 @@ def plan(chk, pid="C07"):
             sample = ["".join(rng.choice(histories.EVENTS) for _ in range(6)) for _ in range(3000)]
             split = rng.choice(histories.compositions(6, 3))
             specs.append(dict(case="lanes", coin=COINS3[n % 3], seed=chk.seed, n=n, k=6, split=split, sample=sample))
+    for i in range(3 if chk.thorough else 1):
+        n += 1
+        specs.append(dict(case="wide", coin=COINS3[i % 3], seed=chk.seed, n=n))
     for i in range(3000 if chk.thorough else 120):
         n += 1
         ev = rng.choice([50, 80, 150, 400, 1000]) if i % 20 else 5000
@@ -129,7 +156,7 @@ def main():
     specs = plan(chk)
     for sp in specs:
         sp["work"] = chk.workdir
-    specs.sort(key=lambda s: -(10 ** s.get("k", 0) if s["case"] == "lanes" else s["events"]))
+    specs.sort(key=lambda s: -(10 ** s.get("k", 0) if s["case"] == "lanes" else s.get("events", 10**6)))
     for res in core.parallel(dispatch, specs, jobs=min(core.NPROC, 12)):
         chk.absorb(res)
     maxk = 5 if chk.thorough else 4
@@ -141,4 +168,4 @@ def main():
 
 
 def replay(spec):
-    core.replay_case("C07", {"lanes": lanes_case, "random": random_case}, spec)
+    core.replay_case("C07", {"lanes": lanes_case, "random": random_case, "wide": wide_case}, spec)
